@@ -81,20 +81,25 @@ def runActs (s : Sys) (i : Nat) (last : Option Str) : List Act → List Inj → 
     let cont (s' : Sys) (sf : Bool) :=
       let (s'', e, t, sf') := runActs s' i last rest inj.tail
       (s'', e, tr :: t, sf || sf')
+    -- a conflict is swallowed (`update…Status` returns nil) or ends the invocation with the error,
+    -- as the translator finds it in the current source
+    let conflicted (s' : Sys) (sf : Bool) :=
+      if (if a.isCfg then OnosVerif.Generated.v3SwallowCfgConflict else OnosVerif.Generated.v3SwallowTxConflict)
+      then cont s' sf else (s', true, [tr], sf)
     match j with
-    | .ok => cont (applyAct s a last) (!storeOK s a last)
+    | .ok => if storeOK s a last then cont (applyAct s a last) false else conflicted s true
     | .fail => (s, true, [tr], false)
     | .conflict =>
-      if a.isCfg then cont (sideWrite (touchCfg s) (actValues (view s) a).2 last) false
-      else cont (touchTx s i) false
+      if a.isCfg then conflicted (sideWrite (touchCfg s) (actValues (view s) a).2 last) false
+      else conflicted (touchTx s i) false
     | .sideOnly =>
       if a.isCfg then (sideWrite s (actValues (view s) a).2 last, true, [tr], false)
       else cont (applyAct s a last) false
     | .race =>
-      if a.isCfg then cont (applyAct s a last) (!storeOK s a last)
+      if a.isCfg then (if storeOK s a last then cont (applyAct s a last) false else conflicted s true)
       else
         let (s', landed) := nbRollback s i
-        if landed then cont s' false else cont (applyAct s a last) false
+        if landed then conflicted s' false else cont (applyAct s a last) false
 
 /-- the raw answer names the harness uses for the device (gRPC code names) -/
 def ansOfName (n : Str) : Option DevAns :=
@@ -118,6 +123,12 @@ def ansOfName (n : Str) : Option DevAns :=
 
 def effName (s : Sys) (ansName : Str) : Str := if s.devUp then ansName else "unavailable".toList
 
+/-- the gRPC code the reconciler's switch sees: `errorCode` maps the typed error back to its code
+    (since fix 29b9466; before, `status.Code` of a typed error was always Unknown) -/
+def effAns (name : Str) : DevAns :=
+  if OnosVerif.Generated.v3ErrorCodeTyped then (ansOfName name).getD .unknown
+  else if name = "ok".toList then .ok else .unknown
+
 /-- the device's part of one Set -/
 def devSet (s : Sys) (values : Values) (election : Nat) (ansName : Str) : Sys × List DevReq :=
   match mkRequest values election with
@@ -129,7 +140,7 @@ def devSet (s : Sys) (values : Values) (election : Nat) (ansName : Str) : Sys ×
 
 /-- one `Reconcile(id)` of the transaction reconciler for transaction `i`. -/
 def stepTx (s : Sys) (i : Nat) (verdict : Verdict) (ansName : Str) (inj : List Inj) (last : Option Str) : Sys × Out :=
-  let ans := (ansOfName (effName s ansName)).getD .unknown
+  let ans := effAns (effName s ansName)
   match planTx s i verdict ans with
   | .panic p => (s, { res := .panic p })
   | .fall => (s, {})
